@@ -289,7 +289,8 @@ def make_objects(rng):
     def metric_result(homog):
         if homog or rng.random() < 0.6:
             return NT(*[rand_value(rng, f) if not homog else rng.uniform(-1, 1) * 10 ** rng.randint(-4, 6) for f in fields])
-        keys = rng.sample(fields, rng.randint(2, 6)) + (["custom"] if rng.random() < .5 else [])
+        keys = rng.sample(fields, rng.randint(2, 6)) + (["custom"] if rng.random() < .5 else []) \
+            + (["p<0.05 & <b>"] if rng.random() < .4 else [])        # a field NAME with markup characters
         return {k: rand_value(rng, k) for k in keys}
 
     def exp_result(homog):
@@ -341,7 +342,10 @@ def views(chk: Check, n):
             if r < 0.4:
                 keys = None
             elif r < 0.7:
-                keys = rng.sample(allkeys, rng.randint(1, min(5, len(allkeys)))) + ["absent_key"]
+                keys = rng.sample(allkeys, rng.randint(1, min(5, len(allkeys)))) + \
+                    [rng.choice(["absent_key", "absent<key>&", "<i>x</i>"])]
+                if "p<0.05 & <b>" in allkeys and "p<0.05 & <b>" not in keys:
+                    keys.insert(rng.randint(0, len(keys)), "p<0.05 & <b>")
             else:
                 keys = ["metric", "effect_size_ci", "rel_effect_size_ci", "power", "nope_ci", "pvalue"]
             jobs.append((cls, obj, homog, keys))
@@ -451,6 +455,58 @@ def views(chk: Check, n):
             chk.sample(dict(kind="views", cls=cls, keys=ks, string=string[:300]))
 
 
+def views_after_mutation(chk: Check, n):
+    """render a result object, change it through its public mapping / list interface, render it again: every view
+    must then show what to_dicts() now returns — compared with a freshly constructed object holding the same entries"""
+    rng = chk.rng
+    for _ in range(n):
+        for cls, obj, homog in make_objects(rng):
+            islist = hasattr(obj, "append") and not hasattr(obj, "keys")
+            keys = None if rng.random() < 0.5 else list(obj.default_keys)[: rng.randint(1, 4)]
+            chk.case(("views-after-mutation", cls, islist, keys is None))
+            chk.branch("mutated:" + cls)
+            try:
+                before = (str(obj), obj.to_string(keys), obj.to_html(keys), obj.to_pretty_dicts(keys))
+                if islist:
+                    how = rng.choice(["append", "pop", "replace"]) if len(obj) > 1 else "append"
+                    if how == "append":
+                        obj.append(obj[0]._replace(power=0.123456, n_obs=777))
+                    elif how == "pop":
+                        obj.pop(0)
+                    else:
+                        obj[0] = obj[0]._replace(power=0.987654, n_obs=55)
+                    fresh = type(obj)(list(obj.data))
+                else:
+                    ks = list(obj.keys())
+                    how = rng.choice(["delete", "replace", "add"]) if len(ks) > 1 else "add"
+                    other = make_objects(rng)
+                    donor = next(o for c, o, _ in other if c == cls)
+                    if how == "delete":
+                        del obj[ks[0]]
+                    elif how == "replace":
+                        obj[ks[0]] = next(iter(donor.values()))
+                    else:
+                        newkey = ("zz", "new") if isinstance(ks[0], tuple) else "zz_new"
+                        obj[newkey] = next(iter(donor.values()))
+                    fresh = type(obj)(dict(obj.data))
+                after = (str(obj), obj.to_string(keys), obj.to_html(keys), obj.to_pretty_dicts(keys))
+                want = (str(fresh), fresh.to_string(keys), fresh.to_html(keys), fresh.to_pretty_dicts(keys))
+                dicts_same = obj.to_dicts() == fresh.to_dicts() or repr(obj.to_dicts()) == repr(fresh.to_dicts())
+            except Exception as ex:  # noqa: BLE001
+                chk.fail("a view raised after the result object was changed through its public interface",
+                         dict(cls=cls, error=repr(ex)))
+                continue
+            if not dicts_same:
+                continue        # the fresh copy is not the same rows (cannot happen for UserDict / UserList); nothing to compare
+            for name, a, w in zip(("str()", "to_string", "to_html", "to_pretty_dicts"), after, want):
+                if a != w:
+                    chk.fail(f"after a result object was rendered and then changed ({how}), {name} does not show the rows "
+                             "to_dicts() now returns (it differs from a fresh object with the same entries)",
+                             dict(cls=cls, change=how, keys=keys, got=str(a)[:300], expected=str(w)[:300],
+                                  first_rendering=str(before[1])[:200]))
+                    break
+
+
 def types_homogeneous(dicts):
     kinds = {}
     for d in dicts:
@@ -502,6 +558,7 @@ def main():
     q = chk.tier == "quick"
     format_runs(chk, 500 if q else 6000)
     views(chk, 4 if q else 40)
+    views_after_mutation(chk, 3 if q else 30)
     chk.cov["rule"] = ("numbers: specials, powers of ten 1e-12..1e12 +- 1 ulp, 5/9.5/9.95/9.995 x 10^k, the named boundary "
                        "values, random floats of all magnitudes / bit patterns, short decimals (ties), ints (also > 2^53); "
                        "sig in {1..5,8,12,15}; pct; 6 fixed-point ranges (None bounds); 6 separator pairs (incl. '.'/','); "
